@@ -79,7 +79,9 @@ def unit(args: dict) -> dict:
             res, edges = pipeline.model_check(built, os.path.join(wd, "mc"), engine=engine,
                                               gvals=args["gvals"], with_can=args.get("with_can", False),
                                               workers=args.get("tlc_workers", 2), timeout=args.get("timeout", 1700),
-                                              props=props, max_states=args.get("max_states", 10 ** 8))
+                                              props=props, max_states=args.get("max_states", 10 ** 8),
+                                              with_batch=args.get("with_batch", False),
+                                              with_burst=args.get("with_burst", False))
             if res.distinct_states >= args.get("max_states", 10 ** 8):
                 out["exhaustive"] = False
             out["states"] = res.distinct_states
